@@ -117,6 +117,24 @@ NEEDS = {
     'C18-fB': "explicit 0/1 design matrix with a row that is not one-hot (compound or null trial)",
     'C19-fA': "mask voxel closer than the radius to a face of the volume (sphere size taken from a template)",
     'C19-fB': "evaluate_models_searchlight with n_jobs > 1, explicit theta and a flexible model (theta not passed to the workers)",
+    'C04-gA': "pool_rdm normalising the caller's vectors in place: a history of calls on one data object, or n_cv >= 2 with corr and fitted models",
+    'C04-gB': "bootstrap_crossval: a skipped (too small) resample stores noise ceiling 0.0 instead of NaN",
+    'C05-gA': "a child made by subset/subsample shares the parent's pattern descriptors; child re-ordered in place; then folds of the parent",
+    'C05-gB': "grouped rdm_descriptor + k_rdm > 1 through bootstrap_crossval / eval_dual_bootstrap (descriptor not handed to the fold generator)",
+    'C09-gA': "string group labels where one is a prefix of another and the draw misses the longest label (dtype re-inferred from the draw)",
+    'C09-gB': "descriptor given as 2-D array (one row per item): extracted from the flattened array",
+    'C10-gA': "concat/from_partials: array descriptor of a later object does not fit the first object's dtype",
+    'C10-gB': "concat with explicit target_pdesc and a later object in another order",
+    'C11-gA': "Dataset.from_df with explicit channels listed in an order other than the frame's column order",
+    'C11-gB': "time_as_observations on a time axis stored in non-ascending order (two cooperating edits)",
+    'C12-gA': "get_matrices() caches and returns the cache: array write on the returned matrices, then re-read / in-place re-order",
+    'C12-gB': "sqrt_transform on RDMs holding both a NaN and a negative value (copy skipped)",
+    'C16-gA': "HDF5 reader turns zero-length arrays into None",
+    'C16-gB': "refused save to an existing HDF5 path deletes the file it refused to replace",
+    'C18-gA': "two make_dataset calls with signal != 1 and the same number of conditions (cached centering matrix scaled in place)",
+    'C18-gB': "condition labels other than 0..n-1 (descriptor stores codes instead of the condition vector)",
+    'C19-gA': "radius equal to an attainable irrational voxel distance (sqrt(2), sqrt(5) ...) with squared-distance comparison",
+    'C19-gB': "searchlight RDMs object re-ordered or sub-selected before evaluation (selection by 'index' value)",
 }
 
 
